@@ -19,6 +19,7 @@ func checkC04(p *Prog, r *Report) {
 	}
 	ruleC04Store(p, a, r, "R-C04-STORE", nil)
 	ruleNoReflectSet(p, r, "R-C04-NOSET")
+	rulePoolDiscipline(p, a, r, "R-C04-POOL")
 	ruleC04Nondet(p, a, r)
 }
 
